@@ -16,7 +16,10 @@ EXTENDS Naturals, Sequences, FiniteSets, TLC
 CONSTANTS Types,       \* resource types known to the tracker: {"folder", "file", "semlock"}
           Lines,       \* the request alphabet: a finite set of field tuples
           MaxCount,    \* state constraint: counts explored up to this value
-          BadBytes     \* marker field for undecodable bytes
+          BadBytes,    \* marker field for undecodable bytes
+          FailModes    \* subset of BOOLEAN: whether, in a run, every destruction attempt fails (the resources were removed
+                       \* behind the tracker's back: unlink raises); no transition depends on it -- a failed destruction
+                       \* is reported as a warning and otherwise changes nothing
 
 VARIABLES reg,         \* [<<type, name>> -> Nat], 0 = not in the registry
           alive,       \* the tracker is still consuming requests
@@ -24,9 +27,10 @@ VARIABLES reg,         \* [<<type, name>> -> Nat], 0 = not in the registry
           reported,    \* output of the last step: the line was reported as an error and skipped
           bal          \* ghost (property wording): registrations minus maybe_unlinks since the last unregister;
                        \* 0 = not counted (never registered, destroyed, or unregistered)
+VARIABLE fail          \* configuration of the run, see FailModes
 VARIABLE last          \* history: the line consumed by the last step (<<>> initially, <<"EOF">> for the sweep); hidden by View
-vars == <<reg, alive, cleaned, reported, bal, last>>
-View == <<reg, alive, cleaned, reported, bal>>
+vars == <<reg, alive, cleaned, reported, bal, fail, last>>
+View == <<reg, alive, cleaned, reported, bal, fail>>
 
 Cmd(ln)   == ln[1]
 RType(ln) == ln[Len(ln)]
@@ -37,7 +41,7 @@ Keys  == Types \X Names
 None2 == <<{}, {}>>
 
 Init == /\ reg = [k \in Keys |-> 0] /\ alive = TRUE /\ cleaned = None2 /\ reported = FALSE
-        /\ bal = [k \in Keys |-> 0] /\ last = <<>>
+        /\ bal = [k \in Keys |-> 0] /\ last = <<>> /\ fail \in FailModes
 
 -----------------------------------------------------------------------------
 (* ghost update, in the property's words *)
@@ -52,7 +56,7 @@ GhostRequest(ln) ==
 (* the code: one iteration of the `while True` loop of main() *)
 Report == /\ reported' = TRUE /\ cleaned' = None2 /\ UNCHANGED reg
 Consume(ln) ==
-  /\ alive /\ alive' = TRUE /\ last' = ln
+  /\ alive /\ alive' = TRUE /\ last' = ln /\ UNCHANGED fail
   /\ GhostRequest(ln)
   /\ IF ~Decodable(ln) THEN Report                                   \* UnicodeDecodeError
      ELSE IF Cmd(ln) = "PROBE" THEN /\ reported' = FALSE /\ cleaned' = None2 /\ UNCHANGED reg
@@ -71,7 +75,7 @@ Consume(ln) ==
 
 (* EOF: every writer is gone; sweep what is still counted, folders after everything else *)
 Eof ==
-  /\ alive /\ alive' = FALSE /\ last' = <<"EOF">>
+  /\ alive /\ alive' = FALSE /\ last' = <<"EOF">> /\ UNCHANGED fail
   /\ cleaned' = << {k \in Keys : reg[k] > 0 /\ k[1] # "folder"}, {k \in Keys : reg[k] > 0 /\ k[1] = "folder"} >>
   /\ reg' = [k \in Keys |-> 0] /\ reported' = FALSE
   /\ bal' = [k \in Keys |-> 0]
